@@ -45,6 +45,14 @@ def all_classes():
 # ---------------------------------------------------------------------------------------------
 # observation
 
+def _vid(v):
+    if isinstance(v, T.Node):
+        return "node:" + type(v).__name__
+    if isinstance(v, (list, tuple)):
+        return "[" + ",".join(_vid(x) for x in v) + "]"
+    return "%s:%r" % (type(v).__name__, v)
+
+
 def observe(o):
     """Everything the property lets a user see of an object: SQL in the six dialect contexts, inline
     and parameterised (with the value list), and the metadata accessors."""
@@ -57,7 +65,7 @@ def observe(o):
                 if par:
                     pz = Parameterizer()
                     s = o.get_sql(c.copy(parameterizer=pz))
-                    out.append((s, tuple(repr(v) if not isinstance(v, T.Node) else "node:" + type(v).__name__ for v in pz.values)))
+                    out.append((s, tuple(_vid(v) for v in pz.values)))
                 else:
                     out.append(o.get_sql(c))
             except Exception as e:  # noqa
@@ -65,7 +73,7 @@ def observe(o):
     d = getattr(o, "__dict__", {})
     out.append(("alias", d.get("alias")))
     for acc in ("tables_", "fields_", "is_aggregate"):
-        if isinstance(o, T.Term) or acc == "is_aggregate":
+        if isinstance(o, T.Term) or (acc == "is_aggregate" and isinstance(o, T.Node)):
             try:
                 v = getattr(o, acc)
                 v = v() if callable(v) and acc == "fields_" else v
